@@ -249,10 +249,13 @@ class MessageManager(interfaces.TokenInterface, interfaces.MessageManager):
             except Exception as e:
                 # The message is out already; failing now would make the
                 # sender answer a second time. A duplicate of the request
-                # just finds no response to repeat.
+                # still is to be answered with what was sent, so the
+                # message itself is kept, for lack of a copy.
                 self.log.warning(
-                    "Sent message can not be kept for duplicates: %r", e
+                    "Sent message can not be copied, keeping it as it is for duplicates: %r",
+                    e,
                 )
+                self._recent_messages[key] = message
 
     #
     # coap dispatch, message-type sublayer: retransmission handling
